@@ -1,4 +1,58 @@
-"""B-filter: write::unit::convert::{FilterDependencies, ...}  (DESIGN.md 6 C19).  -- header completed at the end of file
+"""B-filter: the entry filter of the read->write conversion, src/write/unit.rs `mod convert`  (DESIGN.md 6 C19).
+
+Functions under contract (all owned by C19; verified with their real bodies unless marked):
+  part 1  FilterDependencies::{add_entry, add_edge, require_entry}            effect on the abstract graph view
+              graph(): Map<entry, Vec<entry>>  (dom = registered entries, graph()[e]@ = deps(e)),  req(): required list
+              add_entry requires the entry to be fresh (the debug_assert), add_edge requires `from` registered (the unwrap)
+          get_reachable (R-SELF: free fn, `self` -> `this`)                     R = result, g = graph, "valid" = registered
+              [reach-registered] R ⊆ dom g          [reach-required] required ∩ valid ⊆ R
+              [reach-closed]     e ∈ R, d ∈ deps(e), valid(d) ⇒ d ∈ R
+              [reach-minimal]    R ⊆ S for EVERY set S (vstd ISet: finite or not) that is closed and ⊇ required ∩ valid
+              [reach-sorted] [reach-nodup]  sorted by offset, no duplicates       [reach-terminates] measure (|unvisited|, |queue|)
+  part 2  FilterUnitEntry::has_die_back_edge against the tag tables MEMBER_LIKE / STANDALONE below (written from the C19
+          text and DWARF 5 ch. 3-5):  [backedge-member-like] [backedge-subprogram] [backedge-standalone]
+          [backedge-unknown-conservative];  Deref for FilterUnitEntry
+  part 3  FilterUnit::add_expression_refs   one clause per reference-bearing read::Operation variant of OP_REFS:
+              [expr-ref-<Variant>]  every such operation of the expression has its target in deps (unit refs: if in bounds)
+              [expr-ref-EntryValue] the operations of a nested DW_OP_entry_value expression are covered too
+              [expr-ref-only] nothing else is added, [deps-extend] deps only grows, [expr-info-section] Err only for a
+              .debug_info reference from a unit outside .debug_info; termination
+          FilterUnit::add_location_refs     [loclist-refs] every entry of the location list is walked
+          FilterUnit::add_attribute_refs    [attr-ref-<Variant>] per reference-bearing read::AttributeValue variant of
+              ATTR_REFS, [attr-ref-only] every other variant adds nothing
+          FilterUnit::require_entry         [require-in-bounds] (the debug_assert) / [require-entry]
+          OP_REFS / ATTR_REFS are checked against the enum definitions read from source (check_tables): a variant whose
+          payload can name an entry and that is in no table is `Lost` (exit 2), so a new variant cannot go unnoticed.
+          read::{UnitOffset::is_in_bounds, Expression::operations, Unit::encoding, UnitHeader::{offset, encoding},
+          UnitRef::{locations, locations_offset}, Deref for Unit/UnitRef}, From<read::Error> for ConvertError: real bodies.
+
+EXPECTED FAILURES ON THE PINNED TREE = FINDING (native/src/bin/f_filter_1.rs):  add_expression_refs has no arm for
+  ImplicitPointer, VariableValue and EntryValue  ->  [C19:expr-ref-ImplicitPointer] [C19:expr-ref-VariableValue]
+  [C19:expr-ref-EntryValue] fail (reported on the loop invariant carrying the clause).  A filtered conversion then fails
+  with InvalidDebugInfoRef / InvalidUnitRef where the unfiltered conversion succeeds.
+
+Assumed (TRUSTED; everything the generated file marks external_body / assume_specification):
+  axiom_uso_key, axiom_uso_ord      derive(Hash, Eq, Ord) on the newtype UnitSectionOffset(usize) is a lawful key / orders by .0
+                                    (R-DERIVE re-adds the derives that core's R-ATTR dropped)
+  HashMap::get_mut                  no vstd spec; model: slot of the key, rest of the map untouched
+  <[T]>::sort_unstable              std; model: Ord-sorted permutation (closure-free, but slices sorting is outside Verus)
+  R-MAP                             hashbrown::HashMap<_, _, FnvBuildHasher> -> std HashMap (vstd hash axioms): the
+                                    dependency map is verified against vstd's model of std's map, not hashbrown's code
+  has_attr                          `.iter().any(closure)` iterator adapter
+  OperationIter::next               body is Operation::parse (batch `op`); here a ghost sequence `expr_ops(view, encoding)`
+  UnitHeader::is_in_bounds          header_size()/entries_buf arithmetic (units batch); here an uninterpreted predicate
+  UnitOffset::to_unit_section_offset   `+` on the abstract `T: ReaderOffset` has no Verus spec; requires in-bounds
+  DebugInfoOffset::to_unit_section_offset   `!=` on derive(PartialEq) of SectionId has no Verus spec
+  Dwarf::{locations, locations_offset}, LocListIter::next      MODEL types (not gimli text): read::Dwarf is the record of
+                                    all section readers; results tied to uninterpreted ghost functions
+  core's reader_clone (R-CLONE on `expression.clone()`), verif_unreachable, Result::and_then
+  R-FIELDS: Unit.{abbreviations, line_program}, FilterUnit.entries dropped (untouched by the extracted methods)
+
+Not decided here: FilterDependencies::default() (derived), FilterUnit::{new, read_entry, filter_attributes} (parent stack,
+  that `add_edge`'s and `add_entry`'s preconditions hold at their call sites, that read_entry calls add_attribute_refs for
+  every attribute), FilterUnitSection, ConvertUnitSection::{new_with_filter, reserve_unit}, ConvertUnit::{read_entry,
+  add_entry}, "writing never fails for a missing reference", attribute equality with the unfiltered conversion,
+  AttributeValue::DebugTypesRef (type unit by signature) and DebugInfoRefSup (supplementary file): no edge, see ATTR_NOT_REFS.
 """
 import re
 import lib
@@ -9,8 +63,10 @@ TRUSTED = list(core.TRUSTED) + [
     'axiom_uso_key', 'axiom_uso_ord',
     'std::collections::HashMap::<K1, V, S, A>::get_mut', 'SliceOf::<T>::sort_unstable',
     'has_attr', 'next', 'is_in_bounds', 'to_unit_section_offset', 'locations_offset', 'locations',
+    'Dwarf', 'LocListIter',      # abstract model types (external_body structs)
 ]
 
+MULTIPLE_ERRORS = 8      # add_expression_refs has one finding per unhandled Operation variant; report all of them
 CONVERT = r'^pub\(crate\) mod convert \{'
 
 
@@ -119,17 +175,17 @@ broadcast use {vstd::std_specs::hash::group_hash_axioms, crate::fspec::ax::axiom
         loops={
             0: '''invariant
                 qprev == queue@,
-                inv_part(g, this.edges@, reachable@),
-                inv_closed(g, req, reachable@, queue@, Seq::empty()),
-                inv_min(g, req, reachable@, queue@, Seq::empty()),
+                inv_part(g, this.edges@, reachable@), // [C19:reach-registered][C19:reach-nodup]
+                inv_closed(g, req, reachable@, queue@, Seq::empty()), // [C19:reach-closed][C19:reach-required]
+                inv_min(g, req, reachable@, queue@, Seq::empty()), // [C19:reach-minimal]
             ensures queue@.len() == 0,
-            decreases this.edges@.dom().len(), queue@.len(),''',
+            decreases this.edges@.dom().len(), queue@.len(), // [C19:reach-terminates]''',
             1: '''invariant
-                this.edges@.dom().len() <= d0,
-                queue@.len() == ql0 + (d0 - this.edges@.dom().len()),
-                inv_part(g, this.edges@, reachable@),
-                inv_closed(g, req, reachable@, queue@, entries@.skip(it.index as int)),
-                inv_min(g, req, reachable@, queue@, entries@),'''},
+                this.edges@.dom().len() <= d0, // [C19:reach-terminates]
+                queue@.len() == ql0 + (d0 - this.edges@.dom().len()), // [C19:reach-terminates]
+                inv_part(g, this.edges@, reachable@), // [C19:reach-registered][C19:reach-nodup]
+                inv_closed(g, req, reachable@, queue@, entries@.skip(it.index as int)), // [C19:reach-closed][C19:reach-required]
+                inv_min(g, req, reachable@, queue@, entries@), // [C19:reach-minimal]'''},
         before=[
             ('let mut reachable = Vec::new();', 'let ghost g = this.edges@; let ghost req = this.required@; let ghost reqv = this.required;'),
             ('for entry in', 'let ghost d0 = this.edges@.dom().len(); let ghost ql0 = queue@.len();\n'
@@ -422,6 +478,10 @@ pub open spec fn covers_direct<R: Reader<Offset = usize>>(h: Hdr<R>, ops: Seq<Op
 pub open spec fn direct_target<R: Reader<Offset = usize>>(h: Hdr<R>, op: Op<R>, t: K) -> bool {{
     {' || '.join(t for _, t in direct)}
 }}
+/// every element of deps from index n0 on is the direct target of one of the first k operations
+pub open spec fn only_refs<R: Reader<Offset = usize>>(h: Hdr<R>, ops: Seq<Op<R>>, k: int, deps: Seq<K>, n0: int) -> bool {{
+    forall|j: int| n0 <= j < deps.len() ==> exists|i: int| 0 <= i < k && direct_target(h, #[trigger] ops[i], #[trigger] deps[j])
+}}
 pub open spec fn cov1_EntryValue<R: Reader<Offset = usize>>(h: Hdr<R>, enc: Encoding, op: Op<R>, deps: Seq<K>) -> bool {{
     op matches Operation::EntryValue {{ expression: x }} ==> covers_direct(h, expr_ops::<R>(x.rv(), enc), deps)
 }}
@@ -452,6 +512,8 @@ pub proof fn lemma_covers_mono<R: Reader<Offset = usize>>(h: Hdr<R>, enc: Encodi
 DWARF_MODEL = '''
 // ---- MODEL (not gimli text): `read::Dwarf` is a record of all section readers; the filter only calls the two methods
 // below on it.  Their results are tied to uninterpreted ghost functions (what the sections contain is not modelled).
+#[verifier::external_body]
+#[verifier::reject_recursive_types(R)]
 #[derive(Debug)]
 pub struct Dwarf<R: Reader> { pub model_only: core::marker::PhantomData<R> }
 impl<R: Reader<Offset = usize>> Dwarf<R> {
@@ -467,8 +529,10 @@ impl<R: Reader<Offset = usize>> Dwarf<R> {
 '''
 
 LOCLIST_MODEL = '''
-// ---- MODEL (not gimli text): `LocListIter` (raw iterator + .debug_addr + base address); `next` yields the ghost entry
-// sequence one by one; Ok(None) only at its end.
+// ---- MODEL (not gimli text): `LocListIter` (raw iterator + .debug_addr + base address) is an abstract type (its state
+// is opaque: external_body); `next` yields the ghost entry sequence one by one; Ok(None) only at its end.
+#[verifier::external_body]
+#[verifier::reject_recursive_types(R)]
 #[derive(Debug)]
 pub struct LocListIter<R: Reader> { pub model_only: core::marker::PhantomData<R> }
 impl<R: Reader<Offset = usize>> LocListIter<R> {
@@ -477,7 +541,7 @@ impl<R: Reader<Offset = usize>> LocListIter<R> {
     pub fn next(&mut self) -> (res: Result<Option<LocationListEntry<R>>>)
         ensures
             res matches Ok(Some(e)) ==> old(self).entries().len() > 0 && e == old(self).entries()[0] && final(self).entries() == old(self).entries().skip(1),
-            res matches Ok(None) ==> old(self).entries().len() == 0,
+            res matches Ok(None) ==> old(self).entries().len() == 0 && final(self).entries() == old(self).entries(),
     { unimplemented!() }
 }
 '''
@@ -639,10 +703,10 @@ def populate_filter_unit(ctx, sk, wu):
     OPS0 = f'expr_ops::<R>(expression.0.rv(), {ENC})'
     ens = [f'[C19:expr-ref-{v}] res is Ok ==> covers_{ident(v)}({H}, {OPS0}, {FD})' for v, _, k in OP_REFS if k != 'nested']
     ens.append(f'[C19:expr-ref-EntryValue] res is Ok ==> covers_EntryValue({H}, {ENC}, {OPS0}, {FD})')
-    ens.append(f'[C19:expr-ref-only] forall|j: int| {OD}.len() <= j < {FD}.len() ==> exists|i: int| 0 <= i < {OPS0}.len() && direct_target({H}, #[trigger] {OPS0}[i], #[trigger] {FD}[j])')
+    ens.append(f'[C19:expr-ref-only] only_refs({H}, {OPS0}, {OPS0}.len() as int, {FD}, {OD}.len() as int)')
     ens.append(f'[C19:expr-info-section] res is Err ==> !({INFO})')
     inv = ['invariant',
-           '    *self == *old(self), ops0 == ' + f'expr_ops::<R>(expression0.rv(), {ENC})' + ', h == ' + H + ',',
+           '    *self == *old(self), ops0 == ' + OPS0 + ', h == ' + H + ',',
            '    ops.ops().len() <= ops0.len(), ops.ops() == ops0.skip(ops0.len() - ops.ops().len()),',
            f'    {OD}.is_prefix_of(deps@),']
     for v, _, k in OP_REFS:
@@ -651,18 +715,22 @@ def populate_filter_unit(ctx, sk, wu):
             inv.append(f'    forall|i: int| 0 <= i < ops0.len() - ops.ops().len() ==> cov1_{n}(h, #[trigger] ops0[i], deps@), // [C19:expr-ref-{v}]')
         else:
             inv.append(f'    forall|i: int| 0 <= i < ops0.len() - ops.ops().len() ==> cov1_{n}(h, {ENC}, #[trigger] ops0[i], deps@), // [C19:expr-ref-{v}]')
-    inv.append(f'    forall|j: int| {OD}.len() <= j < deps@.len() ==> exists|i: int| 0 <= i < ops0.len() - ops.ops().len() && direct_target(h, #[trigger] ops0[i], #[trigger] deps@[j]), // [C19:expr-ref-only]')
+    inv.append(f'    only_refs(h, ops0, ops0.len() - ops.ops().len(), deps@, {OD}.len() as int), // [C19:expr-ref-only]')
     inv.append('ensures ops.ops().len() == 0,')
     inv.append('decreases ops.ops().len(),')
     STEP = '''let ghost dprev = deps@; let ghost k0 = ops0.len() - ops.ops().len() - 1;
-                proof { assert(ops0.skip(k0)[0] == ops0[k0]); assert(op == ops0[k0]); assert(ops0.skip(k0).skip(1) =~= ops0.skip(k0 + 1)); }'''
+                proof { assert(ops0.skip(k0)[0] == ops0[k0]); assert(op == ops0[k0]); assert(ops0.skip(k0).skip(1) =~= ops0.skip(k0 + 1));
+                    assert(only_refs(h, ops0, k0, dprev, ''' + OD + '''.len() as int));
+                    assert(only_refs(h, ops0, ops0.len() as int, dprev, ''' + OD + '''.len() as int)); }'''
     imp.splice('add_expression_refs', ret='res', ensures=ens + FRAME, loops={0: '\n'.join(inv)},
                before=[('let mut ops = expression.operations', f'let ghost expression0 = expression.0; let ghost h = {H}; let ghost ops0 = {OPS0};'),
                        ('match op {', STEP)])
     insert_after_loop_body_end(imp, 'add_expression_refs', 0, '''proof {
+                    assert(only_refs(h, ops0, k0, dprev, ''' + OD + '''.len() as int));
                     assert forall|j: int| ''' + OD + '''.len() <= j < deps@.len() implies exists|i: int| 0 <= i < k0 + 1 && direct_target(h, #[trigger] ops0[i], #[trigger] deps@[j]) by {
-                        if j < dprev.len() { assert(deps@[j] == dprev[j]); } else { assert(direct_target(h, ops0[k0], deps@[j])); }
+                        if j < dprev.len() { assert(deps@[j] == dprev[j]); let i = choose|i: int| 0 <= i < k0 && direct_target(h, #[trigger] ops0[i], #[trigger] dprev[j]); assert(direct_target(h, ops0[i], deps@[j])); } else { assert(direct_target(h, ops0[k0], deps@[j])); }
                     }
+                    assert(only_refs(h, ops0, k0 + 1, deps@, ''' + OD + '''.len() as int));
                 }''')
 
     # ---- add_location_refs
@@ -674,6 +742,7 @@ def populate_filter_unit(ctx, sk, wu):
                 locations.entries().len() <= l0.len(), locations.entries() == l0.skip(l0.len() - locations.entries().len()),
                 {OD}.is_prefix_of(deps@),
                 forall|i: int| 0 <= i < l0.len() - locations.entries().len() ==> covers_expr::<R>({H}, {ENC}, (#[trigger] l0[i]).data.0.rv(), deps@),
+            ensures locations.entries().len() == 0,
             decreases locations.entries().len(),'''},
                before=[('while let Some(location)', f'let ghost l0 = {L};'),
                        ('self.add_expression_refs(deps, location.data)?;', '''let ghost dprev = deps@; let ghost k0 = l0.len() - locations.entries().len() - 1;
